@@ -260,8 +260,47 @@ def run(ck, facts, tier):
             for rb in fn.ret_blocks():
                 if not any(fn.dominates(bi, rb) or rb in fn.reachable(t["to"]) for bi, t in calls):
                     covered = False
-            if covered:
-                ck.ok("R9.4", "is_valid_suffixed_iri_ref -> is_valid_iri_ref on %d arms" % len(calls))
+            # what is validated: `ns` alone only when there is no suffix; otherwise the concatenation ns + suffix
+            from mirutil import root_local, provenance
+            sw = None
+            for cand, bk in enumerate(fn.blocks):
+                tt = bk["t"]
+                if tt["t"] == "switch" and (tt.get("variants") or {}).get("enum") == "core::option::Option":
+                    o = fn.origin(tt["on"])
+                    if o[0] == "rvalue" and o[1][0] == "discr" and o[1][1] == [2]:
+                        vals = dict((v, b2) for v, b2 in tt["vals"])
+                        sw = (cand, vals.get("0", tt["else"]))
+            what_ok = sw is not None
+            for bi, t in calls:
+                l, path2 = root_local(fn, t["args"][0])
+                if l == 1:
+                    if sw is None or not edge_dominates(fn, sw, bi):
+                        what_ok = False
+                        ck.bad("R9.4", "R9.4@is_valid_suffixed_iri_ref#validates-ns-only", "is_valid_suffixed_iri_ref validates the namespace alone on a "
+                               "path where a suffix is present: ns + suffix can be invalid although ns is valid (e.g. after a port, an IP "
+                               "literal or an unfinished percent-escape), and valid although ns is not", "%s:%s" % (t["file"], t["line"]))
+                else:
+                    pushed = set()
+                    for b2, t2 in fn.calls():
+                        if call_name_matches(t2, r"string::String::push_str$") and root_local(fn, t2["args"][0])[0] == l and fn.dominates(b2, bi):
+                            src = provenance(fn, t2["args"][1], transparent=())[-1]
+                            if src[0] == "param":
+                                pushed.add(src[1])
+                            elif src[0] == "place" and src[1] and src[1][0] == 2:
+                                pushed.add(2)
+                            else:
+                                l2, _ = root_local(fn, t2["args"][1])
+                                sd = fn.single_def(l2) if l2 is not None else None
+                                if sd and sd[2][0] == "use" and sd[2][1][0] != "k" and sd[2][1][1][0] == 2:
+                                    pushed.add(2)
+                    if pushed != {1, 2}:
+                        what_ok = False
+                        ck.bad("R9.4", "R9.4@is_valid_suffixed_iri_ref#not-the-concatenation", "the string validated when a suffix is present is not "
+                               "the concatenation of ns and suffix (pushed parameters: %s)" % sorted(pushed), "%s:%s" % (t["file"], t["line"]))
+            if covered and what_ok:
+                ck.ok("R9.4", "is_valid_suffixed_iri_ref -> is_valid_iri_ref(ns) without suffix, is_valid_iri_ref(ns + suffix) with one")
+            elif covered:
+                pass
             else:
                 ck.bad("R9.4", "R9.4@is_valid_suffixed_iri_ref#uncovered-return",
                        "a return of is_valid_suffixed_iri_ref is not preceded by is_valid_iri_ref", fn.loc)
